@@ -5,7 +5,7 @@ import subprocess
 import sys
 
 from . import sync_gen
-from .common import COQ
+from .common import COQ  # noqa
 
 CLAUSES = {
     "C13": ["ob_rest_ok (c_obs c)", "proj_eqb fr (i_src (c_in c)) (ob_src (c_obs c))", "wants_again (c_in c) (c_obs c)",
@@ -24,7 +24,7 @@ def main():
     case = sync_gen.run_scenario(desc, prop)
     out = "/tmp/sy/debug_%s.v" % prop
     with open(out, "w") as fh:
-        fh.write("From SV Require Import Base Json Canon Sync SyncObs Corr%s.\nLocal Open Scope N_scope.\n" % prop)
+        fh.write("From SV Require Import Base Json Canon Sync SyncObs CorrC13 Corr%s.\nLocal Open Scope N_scope.\n" % prop)
         fh.write("Definition cc : case_sync := %s.\nDefinition c := cs_case cc.\nDefinition fr := cs_frepr cc.\n" % case.coq)
         fh.write("Eval vm_compute in (mismatch_case cc).\n")
         fh.write("Eval vm_compute in (ob_exn (model_call fr cfg_current (i_opts (c_in c)) (i_entry (c_in c)) (i_src (c_in c)) (i_dst (c_in c))), ob_exn (c_obs c)).\n")
